@@ -8,6 +8,19 @@ Arguments upd : simpl never.
 
 Definition wfc (c : cfg) : Prop := 1 <= limit c /\ 0 < period c /\ 0 <= timeout c.
 
+Lemma log_wait_nonneg c t x : 0 <= log_wait c t x.
+Proof. unfold log_wait, dur_max. case_eq (instant_max <? origin c + x + period c); intros _; lia. Qed.
+
+(* a wait of zero from the log means the oldest entry has expired by now *)
+Lemma log_wait_zero c t x : log_wait c t x = 0 -> x + period c <= t.
+Proof. unfold log_wait, dur_max. case_eq (instant_max <? origin c + x + period c); intros _; lia. Qed.
+Arguments log_wait : simpl never.
+
+Lemma counter_room_pos c l e :
+  0 < period c ->
+  counter_has_room c l e = (prevc l * (period c - e) + curc l * period c <? limit c * period c).
+Proof. intros H. unfold counter_has_room. assert (period c =? 0 = false) as -> by (apply Z.eqb_neq; lia). reflexivity. Qed.
+
 (* ------------------------------------------------------------------------- *)
 (* windows: newest first; consecutive starts at least a period apart *)
 Fixpoint spaced (P : Z) (w : list (Z * list Z)) : Prop :=
@@ -99,7 +112,7 @@ Lemma counter_try_inv c t l :
 Proof.
   intros (Hl & HP & HT) _ [Hh Hp Hs [Hsp Hw]] t' Hle.
   destruct Hh as (a & rest & Hwins & Hcnt).
-  unfold counter_try.
+  unfold counter_try. rewrite counter_room_pos by exact HP.
   set (l1 := rotate c t' l).
   assert (H1 : CInv c t' l1 /\ 0 <= t' - bucket_start l1 < period c).
   { subst l1. unfold rotate. destruct (period c <=? t' - bucket_start l) eqn:E.
@@ -263,7 +276,7 @@ Record Inv (c : cfg) (s : st) : Prop := {
   i_now : 0 <= now s;
   (* a sleeping caller's deadline never exceeds its arrival + timeout: it is decided in time *)
   i_sleep : forall i start u, cs s i = Sleeping start u ->
-              0 < snd u /\ fst u <= (start + timeout c) * snd u /\ start <= now s /\
+              0 < snd u /\ (timeout c < dur_max -> fst u <= (start + timeout c) * snd u) /\ start <= now s /\
               arrival s i = Some start;
   (* a request reaches the inner service at most once, and only when admitted *)
   i_ent : forall i, 0 <= entered s i <= 1;
@@ -294,7 +307,7 @@ Proof.
   - unfold log_try. set (lg := prune c t (rlog l)). case_if; cbn; [discriminate|].
     destruct lg; cbn; [discriminate|]. case_if; cbn; [discriminate|].
     case_if; cbn; [discriminate|]. intros H. inversion H. cbn. lia.
-  - unfold counter_try. set (l1 := rotate c t l).
+  - unfold counter_try. rewrite counter_room_pos by exact HP. set (l1 := rotate c t l).
     assert (Hp : 0 <= prevc l1).
     { unfold LimInv in Hinv. rewrite Ew in Hinv. destruct Hinv as [Hh Hp _ _].
       destruct Hh as (a & rest & _ & Hcnt).
@@ -320,8 +333,9 @@ Proof.
   - unfold log_try. set (lg := prune c t (rlog l)). case_if; cbn; [discriminate|].
     destruct lg; cbn; [discriminate|]. case_if; cbn; [discriminate|].
     case_if; cbn; [discriminate|]. intros H. inversion H. cbn.
-    match goal with E : (_ =? 0) = false |- _ => apply Z.eqb_neq in E end. lia.
-  - unfold counter_try. set (l1 := rotate c t l).
+    match goal with E : (_ =? 0) = false |- _ => apply Z.eqb_neq in E end.
+    match goal with |- context [log_wait ?c0 ?t0 ?x0] => pose proof (log_wait_nonneg c0 t0 x0) end. lia.
+  - unfold counter_try. rewrite counter_room_pos by exact HP. set (l1 := rotate c t l).
     case_if; cbn; [discriminate|].
     case_if; cbn; [discriminate|]. intros H. inversion H. subst w. clear H.
     unfold counter_wait, one_ns.
@@ -362,7 +376,7 @@ Proof.
   { apply He0. destruct Hst as [H|[u H]]; [left; exact H|right; eauto]. }
   assert (Hothers : forall (x : cst), (forall st u, x <> Sleeping st u) -> x <> Created ->
             (forall j st u, upd (cs s) i x j = Sleeping st u ->
-               0 < snd u /\ fst u <= (st + timeout c) * snd u /\ st <= now s /\ arrival s j = Some st) /\
+               0 < snd u /\ (timeout c < dur_max -> fst u <= (st + timeout c) * snd u) /\ st <= now s /\ arrival s j = Some st) /\
             (forall j, (upd (cs s) i x j = Created \/ exists st u, upd (cs s) i x j = Sleeping st u) ->
                (if Nat.eqb j i then True else entered s j = 0))).
   { intros x Hx1 Hx2. split.
@@ -375,7 +389,7 @@ Proof.
   destruct a as [[w|]|].
   - (* come back later *)
     specialize (Hden w Hwf Hl eq_refl).
-    destruct (wait_gt (fst w + (now s - start) * snd w, snd w) (timeout c)) eqn:Eg; cbn [fst].
+    destruct (wait_gt (Z.min (fst w + (now s - start) * snd w) (dur_max * snd w), snd w) (timeout c)) eqn:Eg; cbn [fst].
     + destruct (Hothers Done) as [H1 H2]; [discriminate|discriminate|].
       constructor; cbn; try assumption; try exact H1.
       intros j Hj. specialize (H2 j Hj). destruct (Nat.eq_dec j i) as [Heq|Hne].
@@ -385,7 +399,7 @@ Proof.
       constructor; cbn; try assumption.
       * intros j st u. destruct (Nat.eq_dec j i) as [->|Hne].
         -- rewrite upd_same. intros H. inversion H; subst. cbn [fst snd].
-           repeat split; try assumption. nia.
+           repeat split; try assumption. intros Hfin. nia.
         -- rewrite upd_other by exact Hne. apply Hs.
       * intros j. destruct (Nat.eq_dec j i) as [->|Hne].
         -- intros _. exact Hent0.
@@ -514,8 +528,8 @@ Proof.
     + cbn in *. match goal with E : (_ <? limit c) = false |- _ => apply Z.ltb_ge in E end. lia.
     + pose proof (prune_head c t _ _ _ Ep) as Hh.
       repeat case_if; cbn; split; intros H; try reflexivity; try discriminate; try congruence.
-      match goal with E : (_ =? 0) = true |- _ => apply Z.eqb_eq in E end. lia.
-  - unfold counter_try. set (l1 := rotate c t l).
+      match goal with E : (_ =? 0) = true |- _ => apply Z.eqb_eq in E; apply log_wait_zero in E end. lia.
+  - unfold counter_try. rewrite counter_room_pos by exact HP. set (l1 := rotate c t l).
     assert (Ha : adms l1 = adms l) by (subst l1; unfold rotate; repeat case_if; reflexivity).
     repeat case_if; cbn; split; intros H; try reflexivity; try discriminate; try congruence;
       rewrite ?Ha; reflexivity.
@@ -554,7 +568,7 @@ Qed.
 Lemma sleeping_within_timeout c evs :
   wfc c ->
   Forall (fun s => forall i start u, cs s i = Sleeping start u ->
-            0 < snd u /\ fst u <= (start + timeout c) * snd u /\ arrival s i = Some start)
+            0 < snd u /\ (timeout c < dur_max -> fst u <= (start + timeout c) * snd u) /\ arrival s i = Some start)
          (states (step_st c) (init c) evs).
 Proof.
   intros Hwf. eapply Forall_impl; [|apply reach_Inv; exact Hwf].
@@ -715,7 +729,7 @@ Lemma fresh_counter c t' :
   Forall (eq (AOk None)) (tries c n t' l).
 Proof.
   intros (Hl & HP & HT) Hw n. induction n as [|k IH]; intros l Hs Hp Hc Hn; cbn [tries]; [constructor|].
-  unfold try_acquire at 1. rewrite Hw. unfold counter_try, rotate. rewrite Hs.
+  unfold try_acquire at 1. rewrite Hw. unfold counter_try, rotate. rewrite counter_room_pos by exact HP. rewrite Hs.
   assert (period c <=? t' - t' = false) as -> by (apply Z.leb_gt; lia). rewrite Hs, Hp.
   match goal with |- context [if ?b then _ else _] => assert (b = true) as -> by (apply Z.ltb_lt; nia) end.
   constructor; [reflexivity|]. apply IH; cbn; try assumption; lia.
@@ -727,7 +741,7 @@ Lemma idle_counter c t' n l :
 Proof.
   intros Hwf Hw Hidle Hn. destruct Hwf as (Hl & HP & HT).
   destruct n as [|k]; cbn [tries]; [constructor|].
-  unfold try_acquire at 1. rewrite Hw. unfold counter_try, rotate.
+  unfold try_acquire at 1. rewrite Hw. unfold counter_try, rotate. rewrite counter_room_pos by exact HP.
   assert (period c <=? t' - bucket_start l = true) as -> by (apply Z.leb_le; lia).
   assert (2 * period c <=? t' - bucket_start l = true) as -> by (apply Z.leb_le; lia). cbn.
   match goal with |- context [if ?b then _ else _] => assert (b = true) as -> by (apply Z.ltb_lt; nia) end.
@@ -755,7 +769,7 @@ Qed.
 
 (* non-vacuity *)
 Example ex_burst_fixed :
-  let c := mkCfg Fixed 2 100 250 in
+  let c := mkCfg Fixed 2 100 250 0 in
   let evs := [Poll 0%nat; Poll 1%nat; Poll 2%nat; Poll 3%nat; Advance 100; Poll 2%nat; Poll 3%nat] in
   let s := fold_left (step_st c) evs (init c) in
   adms (lm s) = [100; 100; 0; 0] /\ wins (lm s) = [(100, [100; 100]); (0, [0; 0])].
@@ -1064,12 +1078,12 @@ Qed.
 (* C15 clause a: decided by arrival + timeout *)
 (* a sleeping caller polled at/after arrival + timeout is decided in that poll *)
 Lemma decided_by_deadline c s i start u :
-  wfc c -> Inv c s -> cs s i = Sleeping start u -> start + timeout c <= now s ->
+  wfc c -> timeout c < dur_max -> Inv c s -> cs s i = Sleeping start u -> start + timeout c <= now s ->
   forall st' u', cs (fst (poll c s i)) i <> Sleeping st' u'.
 Proof.
-  intros Hwf Hinv Hcs Hlate st' u'.
+  intros Hwf Hfin Hinv Hcs Hlate st' u'.
   pose proof Hinv as [Hl Hn Hs He He0].
-  destruct (Hs i start u Hcs) as (Hden & Hb & Hle & Harr).
+  destruct (Hs i start u Hcs) as (Hden & Hb & Hle & Harr). specialize (Hb Hfin).
   unfold poll. set (s1 := mkSt _ _ _ _ _ _ _ _).
   change (cs s1 i) with (cs s i). rewrite Hcs. change (now s1) with (now s).
   assert (Hdue : due u (now s) = true).
@@ -1080,8 +1094,8 @@ Proof.
   destruct (try_acquire c (now s) (lm s)) as [l' a]. cbn [snd] in *.
   destruct a as [[w|]|].
   - specialize (Hpos w Hwf Hl eq_refl). specialize (Hd w Hwf Hl eq_refl).
-    assert (Hg : wait_gt (fst w + (now s - start) * snd w, snd w) (timeout c) = true).
-    { unfold wait_gt. cbn [fst snd]. apply Z.ltb_lt. nia. }
+    assert (Hg : wait_gt (Z.min (fst w + (now s - start) * snd w) (dur_max * snd w), snd w) (timeout c) = true).
+    { unfold wait_gt. cbn [fst snd]. apply Z.ltb_lt. apply Z.min_glb_lt; nia. }
     rewrite Hg. cbn. unfold upd. rewrite Nat.eqb_refl. discriminate.
   - unfold poll_running. cbn. destruct (gate s i); cbn; unfold upd; rewrite Nat.eqb_refl; discriminate.
   - cbn. unfold upd. rewrite Nat.eqb_refl. discriminate.
@@ -1237,7 +1251,7 @@ Qed.
    of the code): limit 1, period 16 ms, timeout 100 ms; caller 0 admitted at 0; caller 2 arrives at 16, when
    the bucket (16, ..) starts with the previous bucket's admission still weighing 1.0, waits, and is admitted
    at 18 in that same bucket *)
-Definition ex_counter_cfg := mkCfg SlidingCounter 1 16 100.
+Definition ex_counter_cfg := mkCfg SlidingCounter 1 16 100 0.
 Definition ex_counter_evs := [Poll 0%nat; Advance 16; Poll 1%nat; Drop 1%nat; Poll 2%nat; Advance 2].
 
 Lemma counter_later_window_refuted :
@@ -1255,11 +1269,12 @@ Qed.
 (* ------------------------------------------------------------------------- *)
 (* C15 clause b for the sliding counter: spare capacity by the counter's own weighted estimate *)
 Lemma counter_spare c t l :
+  0 < period c ->
   let l1 := rotate c t l in
   let e := Z.min (Z.max 0 (t - bucket_start l1)) (period c) in
   prevc l1 * (period c - e) + curc l1 * period c < limit c * period c ->
   snd (counter_try c t l) = AOk None.
-Proof. intros l1 e H. unfold counter_try. fold l1. fold e. apply Z.ltb_lt in H. rewrite H. reflexivity. Qed.
+Proof. intros HP l1 e H. unfold counter_try. rewrite counter_room_pos by exact HP. fold l1. fold e. apply Z.ltb_lt in H. rewrite H. reflexivity. Qed.
 
 (* capacity that cannot be lost by the passage of time: m more calls are admitted at once, whenever they come *)
 Definition cap (c : cfg) (l : lim) (m : Z) : Prop :=
@@ -1280,7 +1295,7 @@ Proof.
   - intros H. unfold log_try. pose proof (prune_length c t (rlog l)) as Hpl.
     assert (Z.of_nat (length (prune c t (rlog l))) <? limit c = true) as -> by (apply Z.ltb_lt; lia).
     cbn. split; [reflexivity|]. rewrite app_length. cbn. lia.
-  - intros (H1 & H2 & H3). unfold counter_try. set (l1 := rotate c t l).
+  - intros (H1 & H2 & H3). unfold counter_try. rewrite counter_room_pos by exact HP. set (l1 := rotate c t l).
     assert (Hr : 0 <= prevc l1 /\ 0 <= curc l1 /\ prevc l1 + curc l1 <= prevc l + curc l).
     { subst l1. unfold rotate. repeat case_if; cbn; lia. }
     set (e := Z.min (Z.max 0 (t - bucket_start l1)) (period c)).
@@ -1307,7 +1322,7 @@ Proof.
       apply in_rev in Hx. exact Hx. }
     rewrite Hp. cbn [length]. assert (Z.of_nat 0 <? limit c = true) as -> by (apply Z.ltb_lt; lia).
     cbn. split; [reflexivity|lia].
-  - destruct Hinv as [_ _ Hs _]. unfold counter_try, rotate.
+  - destruct Hinv as [_ _ Hs _]. unfold counter_try, rotate. rewrite counter_room_pos by exact HP.
     assert (period c <=? t - bucket_start l = true) as -> by (apply Z.leb_le; lia).
     assert (2 * period c <=? t - bucket_start l = true) as -> by (apply Z.leb_le; lia). cbn.
     match goal with |- context [if ?b then _ else _] => assert (b = true) as -> by (apply Z.ltb_lt; nia) end.
@@ -1435,7 +1450,7 @@ Qed.
 (* ------------------------------------------------------------------------- *)
 (* non-vacuity *)
 Example ex_counter_windows :
-  let c := mkCfg SlidingCounter 1 16 100 in
+  let c := mkCfg SlidingCounter 1 16 100 0 in
   let s := fold_left (step_st c) (ex_counter_evs ++ [Poll 2%nat]) (init c) in
   adms (lm s) = [18; 0] /\ wins (lm s) = [(16, [18]); (0, [0])] /\ cuttable c (lm s).
 Proof.
@@ -1446,27 +1461,27 @@ Proof.
 Qed.
 
 Example ex_rejected :
-  let c := mkCfg Fixed 1 10 5 in
+  let c := mkCfg Fixed 1 10 5 0 in
   let s := fold_left (step_st c) [Poll 0%nat; Advance 2] (init c) in
   r (snd (poll c s 1%nat)) = 3 /\ entered (fst (poll c s 1%nat)) 1%nat = 0.
 Proof. vm_compute. split; reflexivity. Qed.
 
 Example ex_sleeper_woken_and_decided :
-  let c := mkCfg Fixed 1 10 20 in
+  let c := mkCfg Fixed 1 10 20 0 in
   let s := fold_left (step_st c) [Poll 0%nat; Advance 2; Poll 1%nat; Advance 8] (init c) in
   cs s 1%nat = Sleeping 2 (10, 1) /\ woken s 1%nat = true /\ started (snd (poll c s 1%nat)) = true /\
   period_start (lm (fst (poll c s 1%nat))) = 10.
 Proof. vm_compute. repeat split; reflexivity. Qed.
 
 Example ex_idle_spread :
-  let c := mkCfg SlidingCounter 3 20 0 in
+  let c := mkCfg SlidingCounter 3 20 0 0 in
   let s := fold_left (step_st c) [Poll 0%nat; Poll 1%nat; Poll 2%nat; Poll 3%nat] (init c) in
   r (snd (poll c s 4%nat)) = 3 /\
   fresh_polls c (step_st c s (Advance 40)) [(0, 4%nat); (15, 5%nat); (15, 6%nat)] = [true; true; true].
 Proof. vm_compute. split; reflexivity. Qed.
 
 Example ex_drop_while_sleeping :
-  let c := mkCfg Fixed 1 30 100 in
+  let c := mkCfg Fixed 1 30 100 0 in
   let s := fold_left (step_st c) [Poll 0%nat; Poll 1%nat] (init c) in
   (exists u, cs s 1%nat = Sleeping 0 u) /\ lm (drop s 1%nat) = lm s /\
   started (snd (poll c (advance (drop s 1%nat) 30) 2%nat)) = true.
@@ -1547,4 +1562,91 @@ Proof.
   destruct (poll_cases c s i) as [(st0 & Ht & _)|(_ & _ & Hno & _)]; [|congruence].
   destruct Ht as [[Hc _]|(u0 & Hc & Hdue)]; [congruence|]. rewrite Hcs in Hc. inversion Hc; subst st0 u0.
   unfold due in Hdue. apply Z.leb_le in Hdue. nia.
+Qed.
+
+(* ------------------------------------------------------------------------- *)
+(* second improvement round *)
+
+(* sliding log, window end not representable as an Instant (refresh_period = Duration::MAX or beyond
+   about 2^63 s): a full log never admits; the call is rejected, or - only with a timeout of
+   Duration::MAX - waits for ever (fix 3a55d77; the wait used to be ZERO = "permit consumed") *)
+Lemma log_unrepresentable_expiry c t l x rest :
+  prune c t (rlog l) = x :: rest -> limit c <= Z.of_nat (length (x :: rest)) ->
+  instant_max < origin c + x + period c ->
+  snd (log_try c t l) = (if timeout c <? dur_max then AErr else AOk (Some (dur_max, 1))) /\
+  adms (fst (log_try c t l)) = adms l.
+Proof.
+  intros Hp Hfull Hov. unfold log_try. rewrite Hp.
+  assert (Z.of_nat (length (x :: rest)) <? limit c = false) as -> by (apply Z.ltb_ge; exact Hfull).
+  assert (Hw : log_wait c t x = dur_max).
+  { unfold log_wait. assert (instant_max <? origin c + x + period c = true) as -> by (apply Z.ltb_lt; exact Hov). reflexivity. }
+  rewrite Hw. destruct (timeout c <? dur_max); cbn; [split; reflexivity|].
+  assert (dur_max =? 0 = false) as -> by reflexivity. split; reflexivity.
+Qed.
+
+(* a call is rejected only when the limiter, asked at that instant, has no permit for it: no spurious rejection
+   of a caller that finds spare capacity *)
+Lemma rejected_only_without_capacity c s i :
+  r (snd (poll c s i)) = 3 ->
+  snd (try_acquire c (now s) (lm s)) <> AOk None /\ exists start, tries_now s i start.
+Proof.
+  intros Hr. destruct (poll_cases c s i) as [(st0 & Ht & _ & Hres)|(_ & _ & _ & _ & Hn & _)]; [|congruence].
+  split; [|exists st0; exact Ht].
+  destruct (snd (try_acquire c (now s) (lm s))) as [[w|]|]; try discriminate.
+  destruct Hres as (_ & _ & _ & H). congruence.
+Qed.
+
+(* sliding log, "a permit of a later window" with content: whenever anybody is admitted at t, the admission
+   limit places back lies at least a period before t - the window (t - P, t] held fewer than limit admissions;
+   a waiter found it full on arrival, so it was admitted by a window that ends later *)
+Lemma log_admitted_in_free_window c evs :
+  wfc c -> wt c = SlidingLog ->
+  Forall (fun s => forall i y, started (snd (poll c s i)) = true ->
+            nth_error (adms (lm s)) (Z.to_nat (limit c) - 1) = Some y -> y + period c <= now s)
+         (states (step_st c) (init c) evs).
+Proof.
+  intros Hwf Hw.
+  assert (H : Forall (fun s => Inv c s) (states (step_st c) (init c) evs)) by (apply reach_Inv; exact Hwf).
+  eapply Forall_impl; [|exact H]. intros s Hinv i y Hst Hy.
+  pose proof (poll_inv c s i Hwf Hinv) as [Hl _ _ _ _]. unfold LimInv in Hl. rewrite Hw in Hl. destruct Hl as [_ Hsp].
+  rewrite (start_is_admission c s i Hwf Hst) in Hsp.
+  destruct Hwf as (Hlim & _ & _).
+  apply (Hsp 0%nat (now s) y); [reflexivity|].
+  replace (0 + Z.to_nat (limit c))%nat with (S (Z.to_nat (limit c) - 1)) by lia. exact Hy.
+Qed.
+
+Example ex_log_duration_max :
+  let c := mkCfg SlidingLog 1 dur_max 0 harness_origin in
+  let s := fold_left (step_st c) [Poll 0%nat; Advance 5] (init c) in
+  r (snd (poll c s 1%nat)) = 3 /\ adms (lm (fst (poll c s 1%nat))) = [0] /\
+  (let c' := mkCfg SlidingLog 1 dur_max dur_max harness_origin in
+   let s' := fold_left (step_st c') [Poll 0%nat; Advance 5] (init c') in
+   cs (fst (poll c' s' 1%nat)) 1%nat = Sleeping 5 (dur_max + 5, 1)).
+Proof. vm_compute. repeat split; reflexivity. Qed.
+
+(* script level: refresh_period 0 (outside wfc): every call is admitted by all three window types;
+   refresh_period Duration::MAX, limit 1, timeout 0: one call admitted, the rest rejected, all three types *)
+Example ex_zero_and_max_periods :
+  run_script [2; 1; 0; 0; 3; 1; 0; 0; 1; 1; 0; 1; 2; 0] = [0; 1; 1; 0; 0; 1; 2; 0; 0; 1; 3; 0] /\
+  run_script [0; 1; 0; 0; 2; 1; 0; 0; 1; 1; 0] = [0; 1; 1; 0; 0; 1; 2; 0] /\
+  run_script [1; 1; 0; 0; 2; 1; 0; 0; 1; 1; 0] = [0; 1; 1; 0; 0; 1; 2; 0] /\
+  run_script [0; 1; 10 ^ 15; 0; 2; 1; 0; 0; 6; 50; 0; 1; 1; 0] = [0; 1; 1; 0; -1; 0; 1; 0; 3; 0; 1; 0] /\
+  run_script [1; 1; 10 ^ 15; 0; 2; 1; 0; 0; 6; 50; 0; 1; 1; 0] = [0; 1; 1; 0; -1; 0; 1; 0; 3; 0; 1; 0] /\
+  run_script [2; 1; 10 ^ 15; 0; 2; 1; 0; 0; 6; 50; 0; 1; 1; 0] = [0; 1; 1; 0; -1; 0; 1; 0; 3; 0; 1; 0].
+Proof. vm_compute. repeat split; reflexivity. Qed.
+
+(* fix a8700d2 (start.elapsed().saturating_add(wait) > timeout): with timeout_duration = Duration::MAX a caller that
+   gets no permit is never rejected by the elapsed-time test, whatever wait the limiter names (Duration::MAX
+   included) and however much time has already passed since its arrival - [start] is arbitrary, i.e. also for
+   an in-poll elapsed time that the driver's virtual clock cannot produce; it sleeps. (The sum used to overflow
+   and panic under a real clock.) *)
+Lemma max_timeout_never_rejects c s i start w :
+  snd (try_acquire c (now s) (lm s)) = AOk (Some w) -> 0 < snd w -> dur_max <= timeout c ->
+  cs (fst (acquire_round c s i start)) i = Sleeping start (fst w + now s * snd w, snd w) /\
+  r (snd (acquire_round c s i start)) = 0.
+Proof.
+  intros Ha Hden Hmax. unfold acquire_round. destruct (try_acquire c (now s) (lm s)) as [l' a]. cbn [snd] in Ha. subst a.
+  assert (wait_gt (Z.min (fst w + (now s - start) * snd w) (dur_max * snd w), snd w) (timeout c) = false) as ->.
+  { unfold wait_gt. cbn [fst snd]. apply Z.ltb_ge. nia. }
+  cbn. rewrite upd_same. split; reflexivity.
 Qed.
